@@ -46,7 +46,7 @@ from kernpy.core.tokens import (TokenCategory, Subtoken, NoteRestToken, ChordTok
 
 SUB_CORPUS = {TokenCategory.DURATION: ['4', '.', '8', '16', 'q', '2', '3%2'], TokenCategory.PITCH: ['c', 'cc', 'C', 'DD', 'b', 'g', 'eee'],
               TokenCategory.ALTERATION: ['#', '-', 'n', '##', '#X', '-y'], TokenCategory.REST: ['r'],
-              TokenCategory.DECORATION: ['L', 'J', '_', '[', ']', '(', ')', ';', "'", '^', '~', 'T', '/', 'k'], None: ['x', 'ab']}
+              TokenCategory.DECORATION: ['L', 'J', '_', '[', ']', '(', ')', ';', "'", '^', '~', 'T', '/', 'k', 'y@', 'yy@', 'y'], None: ['x', 'ab']}
 
 
 def mk_subtoken(e, cats, corpus):
@@ -272,7 +272,11 @@ def mk_path_node(e, with_op=False, token=None):
     op = None
     if with_op:
         optok = e.new(SpineOperationToken, {'encoding': '*^', 'category': TokenCategory.SPINE_OPERATION, 'hidden': False, 'cancelled_at_stage': None}, None)
-        op = e.new(Node, {'id': e.int('op.id', 1), 'token': optok, 'children': [], 'header_node': hdr, 'last_spine_operator_node': None}, None)
+        # (the operator cell has its own table of signatures in force -- one clef that the cells below may have replaced since: a cell
+        # that takes its signatures from the operator instead of from the cell above is told apart)
+        stale = e.new(Node, {'id': e.int('op.clef.id', 1), 'token': None}, None)
+        op = e.new(Node, {'id': e.int('op.id', 1), 'token': optok, 'children': [], 'header_node': hdr, 'last_spine_operator_node': None,
+                          'last_signature_nodes': e.new(SignatureNodes, {'nodes': {'ClefToken': stale}}, None)}, None)
     if token is None:
         token = e.new(SimpleToken, {'encoding': e.str_sym('tok.encoding'), 'category': e.enum('tok.category', TokenCategory), 'hidden': False}, None)
     return e.new(Node, {'id': e.int('id', 1), 'token': token,
